@@ -187,7 +187,7 @@ func init() {
 		Case:    c04Case,
 		CaseCPU: 10,
 		ExhaustiveSubspaces: func(tier string) []string {
-			out := []string{"every single schema fault (15 kinds) at every JSON path of the four representative documents",
+			out := []string{"every single schema fault (18 kinds) at every JSON path of the four representative documents",
 				"every combination of the top-level sections of a document being absent, null, empty, holding a null or an empty entry, or minimal (CycloneDX: 3 versions x 7 metadata x 6 components x 5 dependencies; SPDX: 5 packages x 4 files x 5 relationships x 4 documentDescribes x 4 creationInfo)"}
 			if tier == "thorough" {
 				out = append(out, "every byte-prefix truncation of the representative documents")
